@@ -9,6 +9,8 @@
 //!        result(T) == result(T without its ineligible files), no ineligible file makes the run panic,
 //!        every eligible file with findings is analysed, no ineligible file is.
 //!
+//! Besides the enumerated trees (<= 3 directory levels) a family of deep chains (up to 16 / 48 levels) is run: the
+//! property says "at any depth".
 //! Trees are really built under std::env::temp_dir(); the listing order every comparison is attributed to is
 //! the one observed through fs::read_dir on the built tree (never assumed).
 use crate::json::J;
@@ -654,6 +656,20 @@ fn reported_when_alone(f: &FileRef, cat: u8, orc: &Oracle) -> bool {
     present
 }
 
+/// When the file is reported at the top level but not under a neutral chain x/x/../ of its own depth, the depth is
+/// what matters: returns the smallest depth (number of directories above the file) at which it is no longer reported.
+fn smallest_failing_depth(f: &FileRef, cat: u8, orc: &Oracle) -> Option<usize> {
+    let depth = f.rel.matches('/').count();
+    if depth == 0 {
+        return None;
+    }
+    let at = |d: usize| FileRef { rel: format!("{}{}", "x/".repeat(d), f.name), name: f.name.clone(), content: f.content };
+    if !reported_when_alone(&at(0), cat, orc) || reported_when_alone(&at(depth), cat, orc) {
+        return None;
+    }
+    (1..=depth).find(|d| !reported_when_alone(&at(*d), cat, orc))
+}
+
 /// Some file carrying (name, lines) for p whose findings were accumulated BEFORE a later-listed sub-directory
 /// that also has findings for p: returns (file, that sub-directory)
 fn replaced_witness(kids: &[Node], p: Pat, name: &str, lines: &[i64], orc: &Oracle) -> Option<(String, String)> {
@@ -787,7 +803,13 @@ fn check_c03(dir: &str, nodes: &[Node], cat: u8, pats: &[Pat], orc: &Oracle) -> 
                 .filter(|f| !reported_when_alone(f, cat, orc))
                 .collect();
             let (key, what) = if let Some(f) = never.first() {
-                ("c03:missing-entry:file-never-analysed".to_string(), format!("({:?}, {:?}) is missing, and {:?} is not reported even when it is the only file of the tree", name, lines, f.rel))
+                match never.iter().filter_map(|f| smallest_failing_depth(f, cat, orc)).min() {
+                    Some(n) => (
+                        format!("c03:missing-entry:file-never-analysed:below-depth-{}", n),
+                        format!("({:?}, {:?}) is missing: {:?} is not reported even when it is the only file of the tree; the same file alone under a chain of directories x/x/.. is reported with up to {} directories above it and no longer with {}", name, lines, f.rel, n - 1, n),
+                    ),
+                    None => ("c03:missing-entry:file-never-analysed".to_string(), format!("({:?}, {:?}) is missing, and {:?} is not reported even when it is the only file of the tree", name, lines, f.rel)),
+                }
             } else if let Some((f, s)) = replaced_witness(nodes, *p, name, lines, orc) {
                 (
                     "c03:subdir-result-replaces-parent-entries".to_string(),
@@ -931,7 +953,13 @@ fn check_c16(full_dir: &str, stripped_dir: &str, files: &[FileRef], cat: u8, pat
             continue;
         }
         out.push(Disc {
-            key: format!("c16:eligible-file-skipped:{}", skip_reason(&f.rel, f.rel.contains('/') && reported_when_alone(&FileRef { rel: f.name.clone(), name: f.name.clone(), content: f.content }, cat, orc))),
+            key: format!(
+                "c16:eligible-file-skipped:{}",
+                match smallest_failing_depth(f, cat, orc) {
+                    Some(n) => format!("below-depth-{}", n),
+                    None => skip_reason(&f.rel, f.rel.contains('/') && reported_when_alone(&FileRef { rel: f.name.clone(), name: f.name.clone(), content: f.content }, cat, orc)),
+                }
+            ),
             what: format!("{}: {:?} ends in \".sol\" and is not a \".t.sol\" file, it has findings when analysed on its own, but analyze_dir never reports it, not even as the only file of the tree", cname, f.rel),
             expected: format!("{:?} analysed", f.name),
             actual: fmt_map(&nf),
@@ -1182,6 +1210,81 @@ fn pattern_sets(orc: &Oracle, rng: &mut Rng, idx: usize, mode: Mode) -> Vec<(u8,
     sets
 }
 
+fn deep_depths(tier: &str) -> Vec<usize> {
+    let mut v = vec![4, 8, 9, 10, 12, 16];
+    if tier == "thorough" {
+        v.extend([24, 32, 48]);
+    }
+    v
+}
+
+/// Deep trees ("at any depth"): an eligible file with findings under a chain of d one-letter directories, alone,
+/// with sibling eligible files that share its patterns at the intermediate levels (listed before and after the next
+/// directory of the chain, so the merge is exercised at every level on the way back up), and with side branches.
+fn deep_family(mode: Mode, tier: &str, ranks: &HashMap<String, usize>) -> Vec<Tree> {
+    let rank = |n: &str| *ranks.get(n).unwrap_or(&0);
+    // a chain directory name that has plain file names on both sides of it in the listing
+    let files: Vec<&str> = PLAIN_ELIGIBLE.iter().cloned().filter(|n| *n != "z9.sol" && n.is_ascii() && !n.contains(' ')).collect();
+    let mut dir = "x";
+    for cand in ["x", "y", "z", "n0", "n1", "n2"] {
+        if files.iter().any(|f| rank(f) < rank(cand)) && files.iter().any(|f| rank(f) > rank(cand)) {
+            dir = cand;
+            break;
+        }
+    }
+    let before = files.iter().cloned().filter(|f| rank(f) < rank(dir)).max_by_key(|f| rank(f)).unwrap_or("a.sol");
+    let after = files.iter().cloned().filter(|f| rank(f) > rank(dir) && *f != before).min_by_key(|f| rank(f)).unwrap_or("b.sol");
+    let side = if dir == "y" { "z" } else { "y" };
+    let chain = |l: usize| format!("{}/", dir).repeat(l);
+    let mut out = vec![];
+    for d in deep_depths(tier) {
+        let deepest = format!("{}z9.sol", chain(d));
+        let mut variants: Vec<Vec<(String, String)>> = vec![];
+        // the file alone
+        variants.push(vec![("s0".into(), deepest.clone())]);
+        // a sibling at every level, alternately listed before / after the next directory of the chain
+        let mut v = vec![("s0".to_string(), deepest.clone())];
+        for l in 0..d {
+            v.push(if l % 2 == 0 { ("s2".to_string(), format!("{}{}", chain(l), before)) } else { ("s3".to_string(), format!("{}{}", chain(l), after)) });
+        }
+        variants.push(v);
+        // siblings on both sides at the top, in the middle and just above the deepest directory
+        let mut v = vec![("s0".to_string(), deepest.clone())];
+        for l in [0, d / 2, d - 1] {
+            v.push(("s2".to_string(), format!("{}{}", chain(l), before)));
+            v.push(("s3".to_string(), format!("{}{}", chain(l), after)));
+        }
+        variants.push(v);
+        // side branches half way down and just above the deepest directory, two files at the bottom
+        variants.push(vec![
+            ("s0".to_string(), deepest.clone()),
+            ("s1".to_string(), format!("{}{}", chain(d), before)),
+            ("s3".to_string(), format!("{}{}/{}/k.sol", chain(d / 2), side, side)),
+            ("s2".to_string(), format!("{}{}/m.sol", chain(d - 1), side)),
+            ("s2".to_string(), after.to_string()),
+        ]);
+        if mode == Mode::C16 {
+            let junk = [("jg", "a.t.sol"), ("jb", "A.SOL"), ("ju", "a.sol.txt"), ("je", "b.T.sol")];
+            for (i, v) in variants.iter_mut().enumerate() {
+                let (c, n) = junk[(i + d) % junk.len()];
+                v.push((c.to_string(), format!("{}{}", chain(d), n)));
+            }
+            // a border-line eligible name at the bottom, junk half way down and at the bottom
+            variants.push(vec![
+                ("s3".to_string(), format!("{}x.t.sol.bak.sol", chain(d))),
+                ("s0".to_string(), format!("{}.sol", chain(d))),
+                ("ju".to_string(), format!("{}a.sol.txt", chain(d / 2))),
+                ("jg".to_string(), format!("{}my test.t.sol", chain(d))),
+                ("s2".to_string(), before.to_string()),
+            ]);
+        }
+        for v in variants {
+            out.push(Tree { ents: v.into_iter().map(|(c, p)| Ent { path: p, kind: Kind::File(Content::parse(&c).unwrap()) }).collect() });
+        }
+    }
+    out
+}
+
 fn generate(mode: Mode, tier: &str, seed: u64, orc: &Oracle, ranks: &HashMap<String, usize>) -> (Vec<Case>, usize, usize) {
     let mut rng = Rng::new(seed ^ if mode == Mode::C03 { 0x0c03 } else { 0x0c16 });
     let pl = pools(mode, ranks);
@@ -1203,6 +1306,9 @@ fn generate(mode: Mode, tier: &str, seed: u64, orc: &Oracle, ranks: &HashMap<Str
         vec![("s0", "x/y/z/a.sol"), ("s2", "x/y/b.sol"), ("s3", "x/c.sol"), ("s1", "k.sol")],
     ] {
         trees.push((t(&spec), None, "hand-written"));
+    }
+    for tree in deep_family(mode, tier, ranks) {
+        trees.push((tree, None, "deep-chain"));
     }
     if mode == Mode::C16 {
         // every name of the list x every kind of content, alone, inside a sub-directory, and next to other files
@@ -1331,6 +1437,12 @@ fn run_case_c03(case: &Case, orc: &Oracle) -> CaseOut {
     coverage(&nodes, 0, orc, &every, &mut o.cover);
     let mut files = vec![];
     files_of(&nodes, &mut files);
+    for f in &files {
+        let d = f.rel.matches('/').count();
+        if d >= 4 && every.iter().any(|p| !file_lines(orc, &f.name, f.content, *p).is_empty()) {
+            o.cover.insert(format!("eligible-file-with-findings-at-depth:{:02}", d));
+        }
+    }
     let with_findings: Vec<&FileRef> = files.iter().filter(|f| every.iter().any(|p| !file_lines(orc, &f.name, f.content, *p).is_empty())).collect();
     let mut names: Vec<&str> = files.iter().map(|f| f.name.as_str()).collect();
     names.sort();
@@ -1384,6 +1496,12 @@ fn run_case_c16(case: &Case, orc: &Oracle) -> CaseOut {
     coverage(&nodes, 0, orc, &every, &mut o.cover);
     let mut files = vec![];
     files_of(&nodes, &mut files);
+    for f in &files {
+        let d = f.rel.matches('/').count();
+        if d >= 4 && every.iter().any(|p| !file_lines(orc, &f.name, f.content, *p).is_empty()) {
+            o.cover.insert(format!("eligible-file-with-findings-at-depth:{:02}", d));
+        }
+    }
     for f in &files {
         if eligible(&f.name) {
             if CORNER_ELIGIBLE.contains(&f.name.as_str()) {
@@ -1514,12 +1632,14 @@ fn run(mode: Mode, tier: &str, seed: u64) -> CheckResult {
         }
     }
     let bound_common = format!(
-        "directory trees with <= {} entries (files + directories), <= 3 levels of sub-directories: every ordered shape ({} shapes) x {} labellings (twice as many for shapes of <= 5 entries; names chosen so that fs::read_dir lists the entries in the shape's order; contents from {} fixed sources{}), plus 5 larger shapes aimed at interleavings inside a sub-directory (6-9 entries, 6 labellings each) and hand-written trees; 3 creation orders (listing order, reversed, shuffled); all three categories",
+        "directory trees with <= {} entries (files + directories), <= 3 levels of sub-directories: every ordered shape ({} shapes) x {} labellings (twice as many for shapes of <= 5 entries; names chosen so that fs::read_dir lists the entries in the shape's order; contents from {} fixed sources{}), plus 5 larger shapes aimed at interleavings inside a sub-directory (6-9 entries, 6 labellings each) and hand-written trees; plus deep trees: an eligible file with findings under a chain of d directories for d in {:?}, alone, with pattern-sharing sibling files at every / some intermediate levels (listed before and after the chain directory), with side branches{}; 3 creation orders (listing order, reversed, shuffled); all three categories",
         n,
         shapes,
         LABELLINGS,
         SOURCES.len(),
-        if mode == Mode::C16 { " and 4 kinds of junk" } else { "" }
+        if mode == Mode::C16 { " and 4 kinds of junk" } else { "" },
+        deep_depths(tier),
+        if mode == Mode::C16 { ", each with an ineligible junk file next to the deepest file" } else { "" }
     );
     if mode == Mode::C03 {
         r.rule = "a case is one comparison of the real analyze_dir(tree, P) with the union of the real analyze_for_*(file, _, p) over the eligible files (multiset per pattern, no empty lists, no unselected keys); distinct_nontrivial counts distinct trees in which findings for one pattern come from a sub-directory or from >= 2 entries of one directory, plus one id per listing interleaving observed through fs::read_dir".into();
@@ -1536,6 +1656,7 @@ fn run(mode: Mode, tier: &str, seed: u64) -> CheckResult {
     r.exhaustive = false;
     r.extra.push(("trees".into(), J::Num(cases.len() as i64)));
     r.extra.push(("shapes_enumerated".into(), J::Num(shapes as i64)));
+    r.extra.push(("deep_chain_depths".into(), J::Arr(deep_depths(tier).into_iter().map(|d| J::Num(d as i64)).collect())));
     r.extra.push(("observed_through".into(), J::s("fs::read_dir on every directory of every built tree")));
     r.extra.push(("coverage_observed".into(), J::Obj(cover.iter().map(|(k, v)| (k.clone(), J::Num(*v))).collect())));
     r.extra.push(("interleavings_required_not_observed".into(), J::arr_s(missing)));
